@@ -71,7 +71,14 @@ def run_seq(job):
                 continue
             if ev == "STDIN-MORE":
                 if stdin_open:
-                    s.feed_stdin("".join(l + "\n" for l in MORE))
+                    try:
+                        s.feed_stdin("".join(l + "\n" for l in MORE))
+                    except (BrokenPipeError, OSError):
+                        # fzf closed its stdin (a reload terminated the stdin reader): nothing is read any more
+                        s.close_stdin()
+                        stdin_open = False
+                        apply_pending()
+                        continue
                     if from_stdin:
                         lines = lines + MORE
                 else:
